@@ -369,7 +369,7 @@ def unit_op_call(cname, method, pad):
             st.assume(k < n)
             return ('ok', (ret, out, oarr, farr, refs, k))
         info = {'class': cname, 'method': method, 'pad_mode': pad}
-        rp = {'kind': 'fd', 'method': method, 'pad_mode': pad}
+        rp = {'kind': 'ops_call', 'class': cname, 'method': method, 'pad_mode': pad}
         for st, (status, r) in ctx.explore(path):
             if status == 'raise':
                 ctx.fail(st, 'no_raise', 'raises %s' % lib.exc_desc(r), info, replay=rp)
